@@ -2,7 +2,7 @@
    Only pinned statements, closed by [exact lemma], with Print Assumptions. *)
 From Coq Require Import List NArith Bool.
 From FT Require Import Model.Base Model.Local Model.Records Model.Spsc Model.Collector Model.System Proofs.CollectorProofs Proofs.DeliveryProofs
-     Proofs.DrainProofs Proofs.EndToEndProofs Proofs.WholeProofs.
+     Proofs.DrainProofs Proofs.EndToEndProofs Proofs.HistoryProofs Proofs.WholeProofs Proofs.HoldProofs.
 Import ListNotations.
 Open Scope N_scope.
 
@@ -147,6 +147,60 @@ Example C03_whole_examples :
     = [(77, 4294967298, 4294967297); (77, 4294967297, 5)].
 Proof. vm_compute. repeat split; reflexivity. Qed.
 
+(* HOLD, OVER THE SCHEDULER.  Through any history of calls, pushes, exits, spawns and drain
+   steps of any threads (no process step, no new reporter), the commits in the collector's batch
+   are those it held before followed by the CommitCollect commands POPPED along the history,
+   in order.  Hence, cancelable configuration, starting from a state whose batch holds no
+   commit (every reachable idle state: C03_idle_batch_has_no_commit): a record of collect id c
+   is in the cycle's report only if this cycle popped the commit of c -- the root's finish --
+   from some thread's channel during its own drain; a cycle that pops no commit reports
+   nothing.  No interleaving makes a span of a trace reach the reporter before the collector
+   has received the root's commit. *)
+Theorem C03_batch_commits_are_the_popped_commits :
+  forall h s, no_process_no_install h ->
+    b_commit (s_batch (fst (run s h))) = b_commit (s_batch s) ++ popped_commits s h /\
+    s_cancelable (fst (run s h)) = s_cancelable s.
+Proof. exact run_commits. Qed.
+
+Theorem C03_reported_only_after_commit_popped :
+  forall s h recs st n r,
+    no_process_no_install h -> s_cancelable s = true -> b_commit (s_batch s) = [] ->
+    let s1 := fst (run s h) in
+    snd (step s1 ACProcess) = OReport recs st n -> In r recs ->
+    exists c, In c (popped_commits s h) /\
+              In (c, r) (snd (process_owned (anchor_conv (s_nstep (s_tick s1))) true (s_active s1) (s_batch s1))).
+Proof. exact reported_only_after_commit_popped. Qed.
+
+Theorem C03_no_commit_popped_nothing_reported :
+  forall s h recs st n,
+    no_process_no_install h -> s_cancelable s = true -> b_commit (s_batch s) = [] ->
+    popped_commits s h = [] ->
+    snd (step (fst (run s h)) ACProcess) = OReport recs st n -> recs = [].
+Proof. exact no_commit_popped_nothing_reported. Qed.
+
+Theorem C03_idle_batch_has_no_commit :
+  forall dbg ringcap stackcap qcap h0,
+    let s := fst (run (sys_init dbg ringcap stackcap qcap) h0) in
+    s_pc s = PIdle -> b_commit (s_batch s) = [].
+Proof. exact idle_batch_has_no_commit. Qed.
+
+(* non-vacuity: a root with a finished child whose submit is drained while the root is still
+   open: the cycle popped no commit and reports nothing although it holds the child's span;
+   after the root's finish the next cycle pops commit 0 and reports both *)
+Example C03_hold_example :
+  let pre := [AInstall true; ASpawn 1 1 0; ACall 1 (KRoot 1 2 77 5 true); APush 1; ACall 1 (KChild 2 3 1);
+              ACall 1 (KDropSpan 2); APush 1] in
+  let s := fst (run (sys_init false 8 16 16) pre) in
+  let h := [ACBegin; ACPop; ACPop; ACPop; ACCheck] in
+  let s' := fst (run (fst (step (fst (run s h)) ACProcess)) [ACall 1 (KDropSpan 1); APush 1; APush 1]) in
+  let h' := [ACBegin; ACPop; ACPop; ACPop; ACCheck] in
+  (s_pc s, s_cancelable s, b_commit (s_batch s), popped_commits s h) = (PIdle, true, [], []) /\
+  snd (step (fst (run s h)) ACProcess) = OReport [] [(0, 1, 0)] 1 /\
+  (s_pc s', popped_commits s' h') = (PIdle, [0]) /\
+  match snd (step (fst (run s' h')) ACProcess) with OReport recs _ _ => map core3 recs | _ => [] end
+    = [(77, 4294967298, 4294967297); (77, 4294967297, 5)].
+Proof. vm_compute. repeat split; reflexivity. Qed.
+
 Print Assumptions C03_hold.
 Print Assumptions C03_no_commit_no_report.
 Print Assumptions C03_nothing_afterwards.
@@ -156,3 +210,7 @@ Print Assumptions C03_whole_trace_in_rings_is_reported_in_one_report.
 Print Assumptions C03_held_submit_is_reported_with_the_commit.
 Print Assumptions C03_held_after_process.
 Print Assumptions C03_landed_trace_is_reported_whole.
+Print Assumptions C03_batch_commits_are_the_popped_commits.
+Print Assumptions C03_reported_only_after_commit_popped.
+Print Assumptions C03_no_commit_popped_nothing_reported.
+Print Assumptions C03_idle_batch_has_no_commit.
